@@ -44,8 +44,43 @@ fn gen_case(id: u64, r: &mut Rng, out: &mut Out) -> (String, Vec<String>) {
         0 => {
             // the honest run, after an arbitrary part of the window's life
             ops.push(format!("open t={}", win));
-            ops.push(format!("tick ms={}", r.below(win * 1000 - 5000)));
-            handshake(&mut ops, 1, good_pw);
+            match r.below(4) {
+                2 => {
+                    // the responder's final status report (success or InvalidParameter) is never acknowledged:
+                    // its send fails after `session.complete()` / after the refusal, `handle` sees `Err`
+                    ops.push(format!("tick ms={}", r.below(win * 1000 - 40_000)));
+                    let n = r.range(1, 3);
+                    for k in 0..n {
+                        ops.push(format!("pbkdf i={}", k + 1));
+                        ops.push(format!("pake1 i={} pw={}", k + 1, if r.chance(1, 3) { bad_pw } else { good_pw }));
+                        ops.push(format!("pake3 i={} noack=1", k + 1));
+                        ops.push(format!("tick ms={}", r.range(7400, 9000)));
+                    }
+                    handshake(&mut ops, 9, if r.chance(1, 2) { bad_pw } else { good_pw });
+                    out.stat("final_ack_lost", 1);
+                }
+                3 => {
+                    // a handshake that stalls beyond the 60 s marker, its peer having advertised a slow SAI
+                    // (receive timeout > 60 s): SessionNotFound, nothing charged, no session
+                    let at = r.below(2);
+                    ops.push(format!("pbkdf i=1 sai={}", r.range(1000, 1200)));
+                    if at == 1 {
+                        ops.push(format!("pake1 i=1 pw={}", if r.chance(1, 2) { bad_pw } else { good_pw }));
+                    }
+                    ops.push(format!("tick ms={}", r.range(60_200, 75_000)));
+                    if at == 0 {
+                        ops.push(format!("pake1 i=1 pw={}", good_pw));
+                    } else {
+                        ops.push("pake3 i=1".into());
+                    }
+                    handshake(&mut ops, 2, good_pw);
+                    out.stat("stalled_beyond_marker", 1);
+                }
+                _ => {
+                    ops.push(format!("tick ms={}", r.below(win * 1000 - 5000)));
+                    handshake(&mut ops, 1, good_pw);
+                }
+            }
         }
         1 => {
             // wrong passcodes until the window is revoked, then the right one
